@@ -11,7 +11,7 @@ func init() { register("C10", runC10) }
 
 // blockBody items of the restricted language used for the independent Go spec
 type bItem struct {
-	kind string // "text", "parent", "var", "block" / "forblock" / "ifblock" (nested), "wrap" (name = container, see c10_wrap.go)
+	kind string // "text", "parent", "var", "block" / "forblock" / "ifblock" (nested), "wrap" (name = container, see c10_wrap.go), "set" / "each" (c10_calls.go)
 	text string
 	name string
 	body []bItem
@@ -34,6 +34,8 @@ type chainCase struct {
 	nestedAt []int
 	// a nested block of an extending level stands inside further containers
 	wrapped bool
+	// set by spec: the chain reads a variable where the property does not say what it holds (c10_calls.go)
+	unspecified bool
 }
 
 func (cc *chainCase) bodySrc(items []bItem) string {
@@ -54,6 +56,10 @@ func (cc *chainCase) bodySrc(items []bItem) string {
 			sb.WriteString("{% if t %}{% block " + it.name + " %}" + cc.bodySrc(it.body) + "{% endblock %}{% else %}NO{% endif %}")
 		case "wrap":
 			sb.WriteString(wrapSrc(it.name, cc.bodySrc(it.body)))
+		case "set":
+			sb.WriteString("{% set " + it.name + " = '" + it.text + "' %}")
+		case "each":
+			sb.WriteString("{% for " + it.name + " in ['" + strings.Join(strings.Split(it.text, ","), "', '") + "'] %}" + cc.bodySrc(it.body) + "{% endfor %}")
 		}
 	}
 	return sb.String()
@@ -118,13 +124,24 @@ func (cc *chainCase) spec(ctx map[string]any) (string, bool) {
 		}
 	}
 	ok := true
+	// the variables: the context, changed by set tags and loops while the chain is rendered (c10_calls.go)
+	sc := newC10Scope(ctx)
 	var renderItems func(items []bItem, tpl int, chain []specDef, lvl int) string
 	renderBlock := func(name string, body []bItem, tpl int) string {
 		chain := append([]specDef{}, defs[name]...)
 		if len(chain) == 0 || chain[len(chain)-1].tpl != tpl {
 			chain = append(chain, specDef{tpl, body})
 		}
+		defer sc.leave(sc.enter())
 		return renderItems(chain[0].body, chain[0].tpl, chain, 0)
+	}
+	loop := func(name string, values []any, pass func(n int, v any)) {
+		restore := sc.loopStart(name)
+		for n, v := range values {
+			sc.vars[name], sc.vars["loop.index"] = v, n+1
+			pass(n, v)
+		}
+		restore()
 	}
 	renderItems = func(items []bItem, tpl int, chain []specDef, lvl int) string {
 		var sb strings.Builder
@@ -133,34 +150,49 @@ func (cc *chainCase) spec(ctx map[string]any) (string, bool) {
 			case "text":
 				sb.WriteString(it.text)
 			case "var":
-				sb.WriteString(fmt.Sprint(ctx[it.name]))
+				sb.WriteString(sc.read(it.name))
+			case "set":
+				sc.set(it.name, it.text)
 			case "parent":
 				if chain == nil || lvl+1 >= len(chain) {
 					ok = false // parent() with nothing above: an error in every implementation
 					return ""
 				}
+				mark := sc.enter()
 				sb.WriteString(renderItems(chain[lvl+1].body, chain[lvl+1].tpl, chain, lvl+1))
+				sc.leave(mark)
 			case "block":
 				sb.WriteString(renderBlock(it.name, it.body, tpl))
 			case "forblock":
-				for i := 1; i <= 2; i++ {
-					sb.WriteString(fmt.Sprintf("<%d", i) + renderBlock(it.name, it.body, tpl) + ">")
-				}
+				loop("i", []any{1, 2}, func(n int, v any) {
+					sb.WriteString(fmt.Sprintf("<%d", v) + renderBlock(it.name, it.body, tpl) + ">")
+				})
 			case "ifblock":
 				sb.WriteString(renderBlock(it.name, it.body, tpl))
+			case "each":
+				var values []any
+				for _, v := range strings.Split(it.text, ",") {
+					values = append(values, v)
+				}
+				loop(it.name, values, func(n int, v any) { sb.WriteString(renderItems(it.body, tpl, chain, lvl)) })
 			case "wrap":
 				if wrapSkipsBody(it.name) {
 					break // a branch that is not taken: its body is not rendered at all (a parent() there cannot fail)
 				}
 				inner := make([]string, wrapPasses(it.name))
-				for p := range inner {
-					inner[p] = renderItems(it.body, tpl, chain, lvl)
+				if it.name == "for" {
+					loop("i", []any{1, 2}, func(n int, v any) { inner[n] = renderItems(it.body, tpl, chain, lvl) })
+				} else {
+					for p := range inner {
+						inner[p] = renderItems(it.body, tpl, chain, lvl)
+					}
 				}
 				sb.WriteString(wrapOut(it.name, inner))
 			}
 		}
 		return sb.String()
 	}
+	defer func() { cc.unspecified = sc.silent }()
 	out := renderItems(cc.layout, k, nil, 0)
 	return out, ok
 }
@@ -346,13 +378,15 @@ func runC10(e *Env) error {
 	r.Rule = "extends chains of 1–5 levels; each non-base level independently omits / defines / blanks / defines-with-parent() each of 1–3 blocks (all 4^(levels×blocks) assignments for ≤ 3 levels × ≤ 2 blocks, sampled beyond), base layout places blocks at top level, nested in a block, inside for and if; " +
 		"block bodies of one or two extending levels nest a block (plain, in for, in if) under a name the base layout nests too or that only the levels nest, overridden with and without parent() further down; " +
 		"parent() calls, whole override bodies and nested blocks also inside one or two body-carrying constructs (if / else / elseif branch, for body, for-else, spaceless, apply upper, branch not taken, conditional expression, set + print): every single container and every pair over 8 fixed chain shapes on every seed (pairs: 3 shapes in the quick tier), and sampled in the generated chains; " +
+		"parent() called several times while one block is rendered — in a loop over strings, in a loop over numbers, in nested loops, behind one and two assignments, assigned to a variable twice, at the top of the chain, in a middle template (reached through parent() or directly) and at two levels at once — over inherited bodies that read the loop variable, loop.index and the assigned variable (deterministic sweep on every seed, and sampled in the generated chains; a variable read behind the loop or block that bound it is left to the Lean model alone); " +
+		"histories on one processor: a render that fails half-way through a chain (16 kinds of failure: unknown function / filter, missing include, failing user function, parent() with nothing above, failure in the layout, in a middle definition reached through parent(), in an included chain, missing parent, …), once or twice, then 16 renders of healthy chains of 2–4 levels with fresh variables on the failed engine and on a new one, each compared with the substitution spec; " +
 		"the extends tag of each extending template in front of, between or behind its block definitions; " +
 		"static and computed parent names; text and prints outside blocks in children; oracle = an independent substitution spec written in the harness (implementation-only) and the Lean pipeline model; non-trivial = at least 2 levels and one override; distinct by template set"
 	ctx := map[string]any{"who": "W", "t": true}
 	runOne := func(cc *chainCase, tag string) error {
 		tpls := cc.templates()
 		want, specOk := cc.spec(ctx)
-		c := &Case{Templates: tpls, Main: "L0", Ctx: ctx, FailAt: -1}
+		c := &Case{Templates: tpls, Main: cc.levels[0].name, Ctx: ctx, FailAt: -1}
 		im, _, _, err := compareCase(e, c, "render-model-c10", "correspondence (Lean pipeline vs real engine) on extends chains")
 		if err != nil {
 			return err
@@ -389,11 +423,15 @@ func runC10(e *Env) error {
 		if len(cc.nestedAt) > 0 {
 			r.Hit(fmt.Sprintf("nested-block-in-%d-extending-levels", len(cc.nestedAt)))
 		}
-		if specOk {
+		if specOk && cc.unspecified {
+			// a variable is read behind the loop or the block that assigned it: the property does not say what it
+			// holds there, so only the Lean model speaks about this chain
+			r.Hit("go-spec-silent:variable-read-behind-its-loop-or-block")
+		} else if specOk {
 			if im.Class != "" || im.Out != want {
 				r.Violate(Violation{Key: "substitution-wrong", What: fmt.Sprintf("chain of %d levels renders %q (%s), block substitution gives %q", len(cc.levels), truncate(im.Out, 120), im.Class, truncate(want, 120)),
 					Broken: "theorem C10_substitution / C10_parent / C10_empty_override no longer describes the code (implementation-only oracle: independent substitution spec)",
-					Replay: map[string]any{"kind": "chain", "templates": tpls, "main": "L0", "want": want, "got": im.Out, "class": im.Class, "msg": im.Msg}})
+					Replay: map[string]any{"kind": "chain", "templates": tpls, "main": cc.levels[0].name, "want": want, "got": im.Out, "class": im.Class, "msg": im.Msg}})
 			}
 		} else {
 			r.Hit("parent-without-parent")
@@ -442,6 +480,10 @@ func runC10(e *Env) error {
 				Broken: "C10 regression corpus", Replay: map[string]any{"kind": "chain", "templates": c.tpls, "want": c.want, "got": im.Out, "class": im.Class, "msg": im.Msg}})
 		}
 	}
+	// chains rendered after a render has failed half-way through a chain (c10_faults.go)
+	if err := c10FaultHistories(e, runOne); err != nil {
+		return err
+	}
 	// parent() and nested blocks inside every body-carrying construct of a block body (one container, and every pair
 	// of containers inside one another), over a fixed set of chain shapes: the same on every seed
 	for _, stack := range wrapStacks(true, true) {
@@ -461,6 +503,20 @@ func runC10(e *Env) error {
 			for _, k := range stack {
 				r.Hit("container:" + k)
 			}
+		}
+	}
+	// parent() asked for several times while one block is rendered, the variables changing between the calls
+	// (c10_calls.go): the same chains on every seed
+	{
+		chains := c10CallChains(e.Thorough())
+		for _, name := range sortedKeys(chains) {
+			if r.Full() {
+				break
+			}
+			if err := runOne(chains[name], "calls:"+name+":"); err != nil {
+				return err
+			}
+			r.Hit("parent-called-repeatedly:levels-" + name[:1])
 		}
 	}
 	// a parent chosen by the context: one engine, several renders with different contexts, each compared with a fresh engine
@@ -514,6 +570,10 @@ func runC10(e *Env) error {
 	n := e.N(600, 60000)
 	for i := 0; i < n && !r.Full(); i++ {
 		cc := genChain(e, 2+e.Rng.Intn(4), 1+e.Rng.Intn(3), func() int { return e.Rng.Intn(4) })
+		if e.Rng.Intn(3) == 0 {
+			c10DecorateCalls(e, cc)
+			r.Hit("random-repeated-parent-calls")
+		}
 		if err := runOne(cc, "r:"); err != nil {
 			return err
 		}
